@@ -142,8 +142,8 @@ Qed.
 
 Section GroupLive.
   Variable stream : bool.
-  (* what a member may answer: never a panic; a member of a FutureGroup is a future and never answers End *)
-  Definition okg (a: ans) : Prop := a <> APanic /\ (stream = false -> a <> AEnd).
+  (* what a member may answer: never a panic; a member of a FutureGroup is a future and answers neither End nor Item *)
+  Definition okg (a: ans) : Prop := a <> APanic /\ (stream = false -> a <> AEnd /\ forall v, a <> AItem v).
   Definition TSg (s: gst) := g_stream s = stream /\ g_len s = count_occ (g_ent s) /\ g_len s <> 0.
   Definition USg (s: gst) := g_stream s = stream /\ g_len s = count_occ (g_ent s) /\ g_count s = g_done s + g_len s /\ (stream = false -> g_len s <> 0).
 
@@ -151,7 +151,7 @@ Section GroupLive.
   Proof.
     intros [Hnp Hne] [_ HW] _ (U1 & U2 & U3 & U4) Ha E. pose proof (g_handle_cases s i a) as H. cbv zeta in H.
     destruct a as [|[v|v]|v| |]; rewrite H in E; inversion E; subst; clear E; [split; auto|].
-    assert (Hst : stream = true) by (destruct stream; auto; exfalso; apply Hne; reflexivity).
+    assert (Hst : stream = true) by (destruct stream; auto; exfalso; apply (proj1 (Hne eq_refl)); reflexivity).
     assert (Ho : occb s i = true) by (apply (w_pend s HW); exact Ha).
     pose proof (occb_lt s i Ho) as Hk.
     pose proof (count_occ_upd (g_ent s) i (Vac (g_next s)) Hk) as Hc. unfold occb in Ho. destruct (nth i (g_ent s) (Vac 0)) as [m|nx] eqn:En; [|discriminate]. cbn in Hc.
@@ -412,7 +412,7 @@ Section GroupFinal.
   Definition PWg (w: world gst) := Pg stream (cs _ w) (scripts _ w).
 
   Lemma okg_np a : okg stream a -> a <> APanic. Proof. intros [H _]. exact H. Qed.
-  Lemma okg_pend : okg stream APend. Proof. split; discriminate. Qed.
+  Lemma okg_pend : okg stream APend. Proof. split; [discriminate|]. intros _. split; [discriminate|intros v; discriminate]. Qed.
 
   Lemma GInv'_step w o : GInv' w -> GInv' (gstep w o).
   Proof.
@@ -536,3 +536,209 @@ Section GroupTheorem.
   Qed.
 End GroupTheorem.
 Print Assumptions group_next_result.
+
+(* ---- a FutureGroup is drained: under the wake-driven executor every member comes out ---- *)
+(* scripts of futures: Pending* then Ready *)
+Fixpoint goodfg (sc: list step) : bool :=
+  match sc with [] => false | s :: rest => match answer s with APend => goodfg rest | AReady _ => true | _ => false end end.
+Definition nsome (rs: list out) : nat := length (filter (fun o => match o with ONone => false | _ => true end) rs).
+Definition nnone (rs: list out) : nat := length (filter (fun o => match o with ONone => true | _ => false end) rs).
+Lemma nsome_app a b : nsome (a ++ b) = nsome a + nsome b.
+Proof. unfold nsome. rewrite filter_app, app_length. reflexivity. Qed.
+Lemma nnone_app a b : nnone (a ++ b) = nnone a + nnone b.
+Proof. unfold nnone. rewrite filter_app, app_length. reflexivity. Qed.
+
+(* C: members held + outputs yielded so far; Z: the number of times None has been returned, unless the group is empty; B: a bound on every script length.  Invariant of polls and wake-ups (not of inserts and removes) *)
+Definition Rf (C: nat) (Z: nat * nat) (B: nat) (s: gst) (sc: list (list step)) (rs: list out) : Prop :=
+  gq s /\ g_stream s = false /\ (forall k, pend s k = true -> goodfg (nth (g_member s k) sc []) = true) /\
+  g_len s = count_occ (g_ent s) /\ g_len s + nsome rs = C /\ (nnone rs = fst Z \/ g_len s = 0) /\ (fst Z <= nnone rs /\ snd Z <= nsome rs) /\ forall m, length (nth m sc []) <= B.
+
+Section FDrain.
+  Variable C : nat.
+  Variable Z : nat * nat.
+  Variable B : nat.
+  Lemma popped_len (s: gst) (sc: list (list step)) i stp sc' : (stp, sc') = popped_of gst g_member s sc i -> (forall m, length (nth m sc []) <= B) -> forall m, length (nth m sc' []) <= B.
+  Proof.
+    unfold popped_of. intros E H m. destruct (nth (g_member s i) sc []) as [|x rest] eqn:En; inversion E; subst; [apply H|].
+    destruct (Nat.eq_dec (g_member s i) m) as [<-|Hne]; [|rewrite nth_upd_other by auto; apply H].
+    destruct (Nat.lt_ge_cases (g_member s i) (length sc)) as [L|G]; [rewrite nth_upd_same by exact L|rewrite nth_overflow by (rewrite upd_length; exact G); cbn; lia].
+    specialize (H (g_member s i)). rewrite En in H. cbn in H. lia.
+  Qed.
+  Lemma Rf_head (s: gst) (sc: list (list step)) rs i stp sc' : g_awaited s i = true -> (stp, sc') = popped_of gst g_member s sc i -> Rf C Z B s sc rs ->
+    exists rest, nth (g_member s i) sc [] = stp :: rest /\ sc' = upd sc (g_member s i) rest /\ g_member s i < length sc /\
+                 ((answer stp = APend /\ goodfg rest = true) \/ exists r, answer stp = AReady r).
+  Proof.
+    intros Ha E (HQ & _ & Hg & _). specialize (Hg i Ha). unfold popped_of in E.
+    destruct (nth (g_member s i) sc []) as [|x rest] eqn:En; [discriminate|]. inversion E; subst. exists rest. split; [reflexivity|]. split; [reflexivity|].
+    split; [destruct (Nat.lt_ge_cases (g_member s i) (length sc)); auto; rewrite nth_overflow in En by assumption; discriminate|].
+    cbn [goodfg] in Hg. destruct (answer x) as [|r|v| |]; try discriminate; [left; auto|right; eauto].
+  Qed.
+  Lemma Rf_other (s: gst) (sc: list (list step)) i rest k : W s -> pend s i = true -> pend s k = true -> k <> i -> nth (g_member s k) (upd sc (g_member s i) rest) [] = nth (g_member s k) sc [].
+  Proof. intros HW Hi Hk Hne. apply nth_upd_other. intros X. apply Hne. symmetry. apply (w_inj s HW); auto; apply (w_pend s HW); auto. Qed.
+
+  Lemma Rf_cont s sc rs i stp sc' s' e : g_awaited s i = true -> i < g_slots s -> (stp, sc') = popped_of gst g_member s sc i ->
+    Rf C Z B s sc rs -> g_handle s i (answer stp) = (s', Cont, e) -> Rf C Z B s' sc' rs.
+  Proof.
+    intros Ha Hi E HR Eh. destruct (Rf_head s sc rs i stp sc' Ha E HR) as (rest & En & -> & Hm & Hans). pose proof (popped_len s sc i stp _ E) as Hl.
+    destruct HR as (HQ & Hs & Hg & Hc & Hn & Hz & Hlo & Hb). pose proof HQ as [_ HW].
+    destruct Hans as [[Hp Hgr]|[r Hr]]; [|rewrite Hr in Eh; destruct r; cbn in Eh; discriminate].
+    rewrite Hp in Eh. cbn in Eh. inversion Eh; subst s' e. split; [exact HQ|]. split; [exact Hs|]. split; [|split; [exact Hc|split; [exact Hn|split; [exact Hz|split; [exact Hlo|apply Hl, Hb]]]]].
+    intros k Hk. destruct (Nat.eq_dec k i) as [->|Hne]; [rewrite nth_upd_same by exact Hm; exact Hgr|rewrite (Rf_other s sc i rest k HW Ha Hk Hne); apply Hg, Hk].
+  Qed.
+  Lemma Rf_stop s sc rs i stp sc' s' r o e : g_awaited s i = true -> i < g_slots s -> (stp, sc') = popped_of gst g_member s sc i ->
+    Rf C Z B s sc rs -> g_handle s i (answer stp) = (s', Stop r o, e) -> Rf C Z B (g_cleanup s') sc' (rs ++ [o]).
+  Proof.
+    intros Ha Hi E HR Eh. destruct (Rf_head s sc rs i stp sc' Ha E HR) as (rest & En & -> & Hm & Hans). pose proof (popped_len s sc i stp _ E) as Hl.
+    destruct HR as (HQ & Hs & Hg & Hc & Hn & Hz & Hlo & Hb). pose proof HQ as [_ HW].
+    destruct Hans as [[Hp _]|[rr Hr]]; [rewrite Hp in Eh; cbn in Eh; discriminate|].
+    assert (Es : s' = vac_state s i true /\ exists v, o = OSome (Some i) [v]).
+    { rewrite Hr in Eh. destruct rr; cbn in Eh; inversion Eh; subst; split; try reflexivity; eauto. }
+    destruct Es as [-> [v ->]].
+    assert (Ho : occb s i = true) by (apply (w_pend s HW); exact Ha). pose proof (occb_lt s i Ho) as Hk.
+    pose proof (count_occ_upd (g_ent s) i (Vac (g_next s)) Hk) as Hcnt. unfold occb in Ho. destruct (nth i (g_ent s) (Vac 0)) as [m0|nx] eqn:Eni; [|discriminate]. cbn in Hcnt.
+    split; [apply Q_cleanup'; pose proof (Q9 s i (AReady (ROk 0)) HQ Ha Hi) as X; exact X|].
+    split; [exact Hs|]. split; [|split; [cbn; lia|split; [rewrite nsome_app; cbn; lia|split; [left; rewrite nnone_app; cbn; destruct Hz as [Hz|Hz]; lia|split; [rewrite nnone_app, nsome_app; cbn; lia|apply Hl, Hb]]]]].
+    intros k Hk'. change (pend (g_cleanup (vac_state s i true)) k) with (pend (vac_state s i true) k) in Hk'.
+    rewrite (vac_pend s (vac_state s i true) i) in Hk' by reflexivity. destruct (Nat.eqb_spec k i) as [Ek|Hne]; [discriminate|].
+    change (g_member (g_cleanup (vac_state s i true)) k) with (g_member (vac_state s i true) k).
+    rewrite (vac_member s (vac_state s i true) i) by (try reflexivity; exact Hne). rewrite (Rf_other s sc i rest k HW Ha Hk' Hne). apply Hg, Hk'.
+  Qed.
+  Lemma Rf_abort s sc rs i stp sc' s' e : g_awaited s i = true -> i < g_slots s -> (stp, sc') = popped_of gst g_member s sc i ->
+    Rf C Z B s sc rs -> g_handle s i (answer stp) = (s', Abort, e) -> Rf C Z B s sc' rs.
+  Proof.
+    intros Ha Hi E HR Eh. destruct (Rf_head s sc rs i stp sc' Ha E HR) as (rest & En & -> & Hm & Hans).
+    destruct Hans as [[Hp _]|[rr Hr]]; [rewrite Hp in Eh; cbn in Eh; discriminate|rewrite Hr in Eh; destruct rr; cbn in Eh; discriminate].
+  Qed.
+  Lemma Rf_same s s' sc rs : gq s' -> g_stream s' = g_stream s -> g_ent s' = g_ent s -> g_states s' = g_states s -> g_len s' = g_len s -> Rf C Z B s sc rs -> Rf C Z B s' sc rs.
+  Proof. intros HQ' E0 E1 E2 E3 (HQ & Hs & Hg & Hc & Hn & Hz & Hlo & Hb). split; [exact HQ'|]. unfold pend, g_member in *. rewrite E0, E1, E2, E3. destruct Hlo. repeat split; assumption. Qed.
+  Lemma Rf_order s is s1 sc rs : g_order s = Some (is, s1) -> Rf C Z B s sc rs -> Rf C Z B s1 sc rs.
+  Proof. intros E HR. assert (HQ : gq s1) by (eapply Q14; [apply HR|exact E]). unfold g_order in E. inversion E; subst. revert HR. apply Rf_same; auto. Qed.
+  Lemma Rf_finish s sc rs : Rf C Z B s sc rs -> match snd (g_finish s) with Some o => Rf C Z B (fst (g_finish s)) sc (rs ++ [o]) | None => Rf C Z B (fst (g_finish s)) sc rs end.
+  Proof.
+    intros HR. rewrite finish_cleanup. unfold g_finish. assert (Hs : g_stream s = false) by apply HR. rewrite Hs. cbn [andb snd].
+    assert (HQc : gq (g_cleanup s)) by (apply Q_cleanup'; apply HR). revert HR. apply Rf_same; auto.
+  Qed.
+  Lemma Rf_pre s sc rs o : Rf C Z B s sc rs -> g_pre_exit s = Some o -> Rf C Z B s sc (rs ++ [o]).
+  Proof.
+    intros (HQ & Hs & Hg & Hc & Hn & Hz & Hlo & Hb) E. unfold g_pre_exit in E. destruct (Nat.eqb_spec (g_len s) 0) as [E0|]; inversion E; subst.
+    split; [exact HQ|]. split; [exact Hs|]. split; [exact Hg|]. split; [exact Hc|]. split; [rewrite nsome_app; cbn; lia|]. split; [right; exact E0|]. split; [rewrite nnone_app, nsome_app; cbn; lia|exact Hb].
+  Qed.
+  Lemma g_hnores s i a : no_results (snd (g_handle s i a)).
+  Proof. destruct a as [|[v|v]|v| |]; reflexivity. Qed.
+  Lemma g_dnores s : no_results (g_drop s).
+  Proof. unfold no_results, g_drop. induction (g_ent s) as [|[m|nx] l IH]; cbn; auto. Qed.
+End FDrain.
+
+Lemma okg_goodfg sc : (forall st, In st sc -> okg false (answer st)) -> goodg sc = true -> goodfg sc = true.
+Proof.
+  induction sc as [|x rest IH]; intros Hok Hg; [discriminate|]. cbn [goodg goodfg] in *.
+  destruct (Hok x (or_introl eq_refl)) as [Hnp Hf]. destruct (Hf eq_refl) as [He Hi].
+  destruct (answer x) as [|r|v| |].
+  - apply IH; auto. intros st Hin. apply Hok. right. exact Hin.
+  - reflexivity.
+  - exfalso. apply (Hi v). reflexivity.
+  - exfalso. apply He. reflexivity.
+  - discriminate.
+Qed.
+
+Section FDrainRun.
+  Variable cap0 : nat.
+  Notation GLive := (LiveI gst g_slots g_member occb g_nmem (okg false)).
+  Notation gstep := (step_op gst g_slots g_awaited g_member g_handle false false g_order g_pre_exit (fun _ => true) g_finish g_cleanup g_drop (fun _ => false) g_mutate).
+  Notation grun := (run_ops gst g_slots g_awaited g_member g_handle false false g_order g_pre_exit (fun _ => true) g_finish g_cleanup g_drop (fun _ => false) g_mutate).
+  Notation ground := (round gst g_slots g_awaited g_member g_handle false false g_order g_pre_exit (fun _ => true) g_finish g_cleanup g_drop (fun _ => false) g_mutate).
+  Notation grounds := (rounds gst g_slots g_awaited g_member g_handle false false g_order g_pre_exit (fun _ => true) g_finish g_cleanup g_drop (fun _ => false) g_mutate).
+  Definition RWf (C: nat) (Z: nat * nat) (B: nat) (w: world gst) := Rf C Z B (cs _ w) (scripts _ w) (results (tr _ w)).
+
+  Lemma RWf_step C Z B w o : nomut o -> RWf C Z B w -> RWf C Z B (gstep w o).
+  Proof.
+    intros Hn HR. destruct o as [| |c k| |m a sc]; cbn [step_op]; try contradiction.
+    1,2: destruct (finished gst w || dropped gst w); [exact HR|];
+      apply (poll_R gst g_slots g_awaited g_member g_handle false false g_order g_pre_exit (fun _ => true) g_finish g_cleanup g_drop (fun _ => false) gq
+               G1 G8 Q9 G10 (fun s is s1 H => G12 s is s1 (proj1 H)) (Rf C Z B) (Rf_cont C Z B) (Rf_stop C Z B) (Rf_abort C Z B) (Rf_order C Z B) (Rf_finish C Z B) (Rf_pre C Z B)
+               (fun s sc rs H => proj1 H) g_hnores g_dnores); exact HR.
+    destruct (fire_handle_pass gst g_slots (emit gst w [EO]) c k) as [Hc Hs]. unfold RWf. rewrite Hc, Hs, (fire_handle_res gst g_slots). cbn [cs scripts emit tr].
+    rewrite results_app. cbn. rewrite app_nil_r. exact HR.
+  Qed.
+  Lemma RWf_run C Z B ops : Forall nomut ops -> forall w, RWf C Z B w -> RWf C Z B (grun w ops).
+  Proof. induction 1 as [|o r Ho Hr IH]; intros w HR; [exact HR|]. cbn [run_ops fold_left]. apply IH, RWf_step; auto. Qed.
+
+  (* the worlds reachable by histories whose inserted members are futures *)
+  Definition Reach (w: world gst) := exists ops, Forall (goodop false) ops /\ w = grun (gw0 false cap0) ops.
+  Lemma Reach_run w ops : Reach w -> Forall nomut ops -> Reach (grun w ops).
+  Proof.
+    intros (ops0 & H0 & ->) Hn. exists (ops0 ++ ops). split.
+    - apply Forall_app. split; [exact H0|]. eapply Forall_impl; [|exact Hn]. apply goodop_nomut.
+    - unfold run_ops. rewrite fold_left_app. reflexivity.
+  Qed.
+  Lemma Reach_rounds r w : Reach w -> Reach (grounds r w).
+  Proof.
+    intros H. destruct (rounds_is_run' gst g_slots g_awaited g_member g_handle false false g_order g_pre_exit (fun _ => true) g_finish g_cleanup g_drop (fun _ => false) g_mutate r w) as (ops' & -> & Hn).
+    apply Reach_run; auto.
+  Qed.
+  Lemma Reach_RI w : Reach w -> RI false w.
+  Proof. intros (ops & Hok & ->). apply RI_run; [apply RI_init|exact Hok]. Qed.
+
+  Lemma results_ext (w w': world gst) : ext gst w w' -> exists x, results (tr _ w') = results (tr _ w) ++ x.
+  Proof. intros [u Hu]. rewrite Hu, results_app. eauto. Qed.
+
+  (* one more output: from a non-empty reachable FutureGroup, within B rounds the executor is at a reachable world holding fewer members *)
+  Lemma fgroup_progress w B : Reach w -> finished _ w = false -> dropped _ w = false -> g_len (cs _ w) <> 0 ->
+    (forall m, length (nth m (scripts _ w) []) <= B) -> 1 <= B ->
+    exists r, r < B /\ let w' := grounds (S r) w in
+      dropped _ w' = false /\ finished _ w' = false /\ g_len (cs _ w') < g_len (cs _ w) /\ forall m, length (nth m (scripts _ w') []) <= B.
+  Proof.
+    intros HR Hf Hd Hlen HB HB1. pose proof (Reach_RI w HR) as (HI & HL & HP). destruct HR as (ops & Hok & Ew).
+    pose proof (group_next_result false cap0 ops B Hok) as Hnext. cbv zeta in Hnext. rewrite <- Ew in Hnext.
+    destruct (Hnext Hf Hd Hlen HB HB1) as (r & Hr & Hd1 & _ & Hfin & u & o & Hu). clear Hnext.
+    exists r. split; [exact Hr|]. cbv zeta.
+    (* the invariant Rf along the rounds *)
+    pose proof (group_trace_inv true false cap0 ops) as HT. cbv zeta in HT. unfold group_run' in HT. fold (gw0 false cap0) in HT. rewrite <- Ew in HT. destruct (HT Hd) as [HG _].
+    set (C := g_len (cs _ w) + nsome (results (tr _ w))). set (Z := (nnone (results (tr _ w)), nsome (results (tr _ w)))).
+    assert (HR0 : RWf C Z B w).
+    { destruct HP as (HQ & Hs & Hn & Hg). destruct HL as (_ & Hnp & _). split; [exact HQ|]. split; [exact Hs|]. split.
+      - intros k Hk. apply okg_goodfg; [intros st Hin; apply (Hnp _ st Hin)|apply Hg, Hk].
+      - split; [apply (sl_len _ (G_slab _ _ HG))|]. split; [reflexivity|]. split; [left; reflexivity|]. split; [cbn; lia|exact HB]. }
+    destruct (rounds_is_run' gst g_slots g_awaited g_member g_handle false false g_order g_pre_exit (fun _ => true) g_finish g_cleanup g_drop (fun _ => false) g_mutate (S r) w) as (ops1 & E1 & Hn1).
+    destruct (rounds_is_run' gst g_slots g_awaited g_member g_handle false false g_order g_pre_exit (fun _ => true) g_finish g_cleanup g_drop (fun _ => false) g_mutate r w) as (opsr & Er & Hnr).
+    pose proof (RWf_run C Z B ops1 Hn1 w HR0) as HR1. rewrite <- E1 in HR1.
+    pose proof (RWf_run C Z B opsr Hnr w HR0) as HRr. rewrite <- Er in HRr.
+    destruct HR1 as (_ & _ & _ & _ & Hc1 & Hz1 & _ & Hb1). destruct HRr as (_ & _ & _ & _ & Hcr & Hzr & [Hlr1 Hlr2] & _).
+    split; [exact Hd1|]. split.
+    { (* not finished: no result of a group is final *)
+      rewrite rounds_S.
+      eapply (round_unfinished gst g_slots g_awaited g_member g_handle false false g_order g_pre_exit (fun _ => true) g_finish g_cleanup g_drop (fun _ => false) gq) with (occ := occb) (nmem := g_nmem) (okans := okg false) (US := USg false);
+        try first [exact G1|exact G2|exact G3|exact (fun s i a s' r o e H => G4 s i a s' r o e (proj1 H))|exact G5|exact (fun s i a s' o e H => G6 s i a s' o e (proj1 H))|exact G7|exact G8|exact Q9
+                  |exact G10|exact G11|exact (fun s is s1 H => G12 s is s1 (proj1 H))|exact (fun s is s1 H => G13 s is s1 (proj1 H))|exact Q14|exact G15|exact (fun s i H => G16 s i (proj1 H))|exact Q17
+                  |exact (fun _ => eq_refl)|exact (fun _ _ _ => eq_refl)|exact Q_cleanup'|exact g_mutate_inv'|exact g_aw_occ|exact g_member_inj|exact g_member_lt|exact handle_gstable|exact order_gstable
+                  |exact finish_gstable|exact after_gstable|exact g_abort_panic|exact (okg_np false)|exact (okg_pend false)|exact (USg_cont false)].
+      - apply (Reach_RI _ (Reach_rounds r w (ex_intro _ ops (conj Hok Ew)))).
+      - apply (Reach_RI _ (Reach_rounds r w (ex_intro _ ops (conj Hok Ew)))).
+      - apply Hfin. lia.
+      - rewrite <- rounds_S. exact Hd1. }
+    split; [|exact Hb1].
+    (* fewer members: the results grew by o; either o is an output, or it is None and the group is empty *)
+    rewrite Hu, !results_app in Hc1, Hz1. cbn [results flat_map] in Hc1, Hz1.
+    set (w1 := grounds (S r) w) in *. set (wr := grounds r w) in *. clearbody w1 wr. unfold Z in *. cbn [fst snd] in *. rewrite !nsome_app in Hc1. rewrite !nnone_app in Hz1. unfold C in Hc1, Hcr.
+    (* o = None: the group was empty when it was returned; otherwise one more output *)
+    destruct o; cbn in Hc1, Hz1; lia.
+  Qed.
+
+  (* every member comes out: a reachable FutureGroup holding n members is empty after at most n * B rounds of the wake-driven executor, and the world
+     reached is again one of the histories every C11 theorem speaks about (so: each member's output has been yielded exactly once, with its key) *)
+  Theorem fgroup_drains B : 1 <= B -> forall n w, Reach w -> finished _ w = false -> dropped _ w = false -> g_len (cs _ w) <= n ->
+    (forall m, length (nth m (scripts _ w) []) <= B) ->
+    exists R, R <= n * B /\ let w' := grounds R w in
+      dropped _ w' = false /\ finished _ w' = false /\ g_len (cs _ w') = 0 /\ Reach w'.
+  Proof.
+    intros HB1. induction n as [|n IH]; intros w HR Hf Hd Hn HB.
+    - exists 0. split; [lia|]. cbn. repeat split; auto. lia.
+    - destruct (Nat.eq_dec (g_len (cs _ w)) 0) as [E0|Hne]; [exists 0; split; [lia|]; cbn; repeat split; auto|].
+      destruct (fgroup_progress w B HR Hf Hd Hne HB HB1) as (r & Hr & Hd1 & Hf1 & Hl1 & Hb1).
+      destruct (IH (grounds (S r) w) (Reach_rounds (S r) w HR) Hf1 Hd1 ltac:(lia) Hb1) as (R & HRb & Hd2 & Hf2 & Hl2 & HR2).
+      exists (S r + R). split; [nia|]. cbv zeta.
+      rewrite (rounds_add gst g_slots g_awaited g_member g_handle false false g_order g_pre_exit (fun _ => true) g_finish g_cleanup g_drop (fun _ => false) g_mutate (S r) R w).
+      repeat split; auto.
+  Qed.
+End FDrainRun.
+Print Assumptions fgroup_drains.
